@@ -378,6 +378,8 @@ def remove_scenarios():
          A("V", "ij", "ab") * A("D", "ij", "ab", 0, SY) * N("w", "ijab"), "V"))
     a(Sc("mixed terms", "R14c", "V D w + V x: explicit and implicit target indices in one block",
          A("V", "ij", "ab") * A("D", "ij", "ab", 0, SY) * N("w", "ijab") + A("V", "ij", "ab") * N("x", "ijab"), "V"))
+    a(Sc("clashing explicit targets", "R14c", "V D w y_k + V D w y_l: two different explicit target sets in one block are refused",
+         A("V", "ij", "ab") * A("D", "ij", "ab", 0, SY) * N("w", "ijab") * (N("y", "k") + N("y", "l")), "V"))
     a(Sc("two occurrences spectator", "R14c", "V^ij_ab V^ij_cd w_ijabcd", A("V", "ij", "ab") * A("V", "ij", "cd") * N("w", "ijabcd"), "V"))
     a(Sc("square spectator provided", "R14c", "(V^kl_cd)^2 w_klcdia with explicit targets i, a",
          A("V", "kl", "cd") ** 2 * N("w", "klcdia"), "V", target="ia"))
